@@ -1,3 +1,5 @@
+//go:build verif
+
 package harness
 
 import (
@@ -28,8 +30,25 @@ type nDoc struct {
 	B          []nB
 }
 
+// c20Names: the names of the sibling array and of the top-level tag field in the index (the
+// model always calls them B and tag).  Names that extend the name of the nested array A
+// ("AB", "Atag") must not be taken for fields of A.
+type c20NameSet struct{ B, Tag string }
+
+var c20Names = c20NameSet{"B", "tag"}
+
+func c20Field(logical string) string {
+	switch {
+	case logical == "tag":
+		return c20Names.Tag
+	case strings.HasPrefix(logical, "B."):
+		return c20Names.B + logical[1:]
+	}
+	return logical
+}
+
 func (d nDoc) toBleve() map[string]interface{} {
-	m := map[string]interface{}{"title": d.Title, "tag": d.Tag}
+	m := map[string]interface{}{"title": d.Title, c20Names.Tag: d.Tag}
 	var as []interface{}
 	for _, a := range d.A {
 		am := map[string]interface{}{"x": a.X, "y": a.Y}
@@ -45,7 +64,7 @@ func (d nDoc) toBleve() map[string]interface{} {
 	for _, b := range d.B {
 		bs = append(bs, map[string]interface{}{"z": b.Z})
 	}
-	m["B"] = bs
+	m[c20Names.B] = bs
 	return m
 }
 
@@ -65,7 +84,7 @@ func c20Mapping(nested bool) mapping.IndexMapping {
 	m := bleve.NewIndexMapping()
 	dm := bleve.NewDocumentStaticMapping()
 	dm.AddFieldMappingsAt("title", kw())
-	dm.AddFieldMappingsAt("tag", kw())
+	dm.AddFieldMappingsAt(c20Names.Tag, kw())
 	a := mk()
 	a.Dynamic = false
 	a.AddFieldMappingsAt("x", kw())
@@ -79,7 +98,7 @@ func c20Mapping(nested bool) mapping.IndexMapping {
 	b := mk()
 	b.Dynamic = false
 	b.AddFieldMappingsAt("z", kw())
-	dm.AddSubDocumentMapping("B", b)
+	dm.AddSubDocumentMapping(c20Names.B, b)
 	m.DefaultMapping = dm
 	return m
 }
@@ -112,7 +131,7 @@ type nQuery struct {
 
 func (l nLeaf) bleve() query.Query {
 	q := bleve.NewTermQuery(l.Word)
-	q.SetField(l.Field)
+	q.SetField(c20Field(l.Field))
 	return q
 }
 
@@ -291,7 +310,7 @@ func runNQuery(idx bleve.Index, q query.Query) ([]string, uint64, error) {
 
 func TestC20Nested(t *testing.T) {
 	ev := Ev("C20")
-	ev.SetRule("rapid: documents with top-level title/tag, nested arrays A{x,y,sub{u,v}} (two levels) and sibling array B{z}, 0-3 elements each over a 3-word vocabulary, indexed under the nested mapping and under its flat twin; histories with updates, deletes, re-creations, forced merges and reopen on scorch (memory/disk); " +
+	ev.SetRule("rapid: documents with top-level title/tag, nested arrays A{x,y,sub{u,v}} (two levels) and sibling array B{z} (the sibling array and the tag field are also given names that extend the nested array's name: AB, A_2, Atag, A_tag), 0-3 elements each over a 3-word vocabulary, indexed under the nested mapping and under its flat twin; histories with updates, deletes, re-creations, forced merges (between batches, and - through the batch.beforeIntroduce hook - between a batch's segment preparation and its introduction) and reopen on scorch (memory/disk); " +
 		"queries: conjunctions of 2-3 leaves all on A (incl. chains A.x AND A.sub.u), alone or as a clause of a conjunction / disjunction / boolean with a clause on B, title or tag; " +
 		"oracle = tree model (nested: one element of A - and one sub element for sub leaves - satisfies all conjuncts; other clauses per parent; flat: each leaf met by some element); hits are parent ids, each once, Total==len(hits), DocCount==#parents, match-all returns exactly the parents, deleted/updated parents vanish with their elements, nested hits are a subset of flat hits for pure conjunctions; " +
 		"non-trivial = some live parent has two elements that jointly but not individually satisfy the inner conjunction (nested and flat answers differ) and the history updated or deleted a parent")
@@ -301,6 +320,8 @@ func TestC20Nested(t *testing.T) {
 		if cfg.Engine == EngScorchDisk {
 			GenScorchDiskOpts(t, "cfg", &cfg)
 		}
+		c20Names = rapid.SampledFrom([]c20NameSet{{"B", "tag"}, {"B", "tag"}, {"AB", "tag"}, {"B", "Atag"}, {"A_2", "A_tag"}}).Draw(t, "names")
+		defer func() { c20Names = c20NameSet{"B", "tag"} }()
 		dir := TempDir(t)
 		nidx, err := cfg.Create(dir+"/nested", c20Mapping(true))
 		if err != nil {
@@ -314,6 +335,7 @@ func TestC20Nested(t *testing.T) {
 		defer fidx.Close()
 		model := map[string]nDoc{}
 		touched := false
+		mergeWindows := 0
 		nsteps := rapid.IntRange(1, 8).Draw(t, "nsteps")
 		var hist []string
 		for s := 0; s < nsteps; s++ {
@@ -340,7 +362,27 @@ func TestC20Nested(t *testing.T) {
 						hist = append(hist, fmt.Sprintf("index %s %+v", id, d))
 					}
 				}
-				if err := nidx.Batch(nb); err != nil {
+				// a merge introduced between the batch's segment preparation (which computes the
+				// obsoleted documents against the root of that moment) and its introduction
+				inWindow := cfg.Engine == EngScorchDisk && rapid.IntRange(0, 2).Draw(t, "mergeInWindow") == 0
+				if inWindow {
+					fired := false
+					InstallHook(HookPlan{})
+					SetOnPoint(func(p string) {
+						if p == "batch.beforeIntroduce" && !fired {
+							fired = true
+							_ = ForceMerge1(nidx)
+						}
+					})
+					hist = append(hist, "(forced merge introduced while the next batch waits to be introduced)")
+					mergeWindows++
+				}
+				err := nidx.Batch(nb)
+				if inWindow {
+					SetOnPoint(nil)
+					ClearHook()
+				}
+				if err != nil {
 					t.Fatalf("batch: %v", err)
 				}
 				if err := fidx.Batch(fb); err != nil {
@@ -370,7 +412,9 @@ func TestC20Nested(t *testing.T) {
 			parents = append(parents, id)
 		}
 		sort.Strings(parents)
-		desc := func() string { return fmt.Sprintf("config %s\n history %s", cfg, strings.Join(hist, "\n         ")) }
+		desc := func() string {
+			return fmt.Sprintf("config %s, sibling array named %q, tag field named %q\n history %s", cfg, c20Names.B, c20Names.Tag, strings.Join(hist, "\n         "))
+		}
 		// counts and match-all: parents only
 		if dc, err := nidx.DocCount(); err != nil || int(dc) != len(parents) {
 			t.Fatalf("DocCount=%d err=%v, %d parent documents are live (%v)\n%s", dc, err, len(parents), parents, desc())
@@ -432,6 +476,9 @@ func TestC20Nested(t *testing.T) {
 			}
 			if separates {
 				cl = append(cl, "nested!=flat")
+			}
+			if mergeWindows > 0 {
+				cl = append(cl, "merge-introduced-between-batch-preparation-and-introduction")
 			}
 			canon := map[string]interface{}{"cfg": cfg, "hist": hist, "q": nq}
 			smp := map[string]interface{}{"cfg": cfg, "query": nq, "parents": parents, "nested_hits": nh, "flat_hits": fh}
